@@ -406,3 +406,36 @@ def rule_R6(ctx, R):
             res.ok(f["path"])
     res.need(13, "safe functions consuming key carriers")
     return res
+
+
+def rule_X3(ctx, R):
+    """acquisition mode matches the kind of access handed out."""
+    res = RuleResult("X3", "read-flavoured APIs acquire shared, write-flavoured APIs acquire exclusive: the mode of every acquisition "
+                           "equals the mode of the access it then hands out (a shared view behind an exclusive lock would make readers "
+                           "exclude each other and try_read refuse read-held locks)")
+    for f in R.with_role("ACQ-SCOPED") + R.with_role("ACQ-GUARD"):
+        if f.get("unsafe"):
+            continue
+        paths, err, I = ctx.paths(f)
+        if err:
+            continue
+        bad = None
+        for p in paths:
+            acq = [e for e in p.events if e["k"] == "ACQ" or (e["k"] == "TRY" and e.get("outcome") is True)]
+            if not acq:
+                continue
+            for a in p.ev("ASSUME"):
+                need = a["mode"]
+                have = next((x["mode"] for x in reversed(acq) if x["recv"] == a["recv"] and x["i"] < a["i"]), None)
+                if have is None:
+                    continue
+                if a.get("op") == "cell_ref" and have != "R":
+                    bad = "hands out a shared view of %s after acquiring it in mode %s" % (ctx.arg_name(f, a["recv"]), have)
+                if a.get("op") == "cell_mut" and have != "W":
+                    bad = "hands out an exclusive view of %s after acquiring it in mode %s" % (ctx.arg_name(f, a["recv"]), have)
+        if bad:
+            res.bad(Violation("X3", f["path"], "mode-of-access", bad, *_fnloc(ctx, f)))
+        else:
+            res.ok(f["path"])
+    res.need(56, "acquiring APIs")
+    return res
